@@ -1715,6 +1715,38 @@ def run(index, rep, tier):
             rep.check(any(v2 == vn for v2, _ in lower), "R20.29", pp.qualname, "position checked against the upper bound only", fn_where(pp, nd.stmt), "_parse_positions refuses `%s` below 1 as well as above the width" % vn,
                       "NexusReader._parse_positions refuses `%s` but never a position below 1: `CHARSET x = 0;` is accepted, shifted to the index -1, and the character set silently selects the last column of the matrix" % norm(nd.ast)[:50])
 
+    # ---- R20.30 a count is compared with its declared limit on the right side of the boundary
+    with rep.section("R20.30"):
+        rep.rule("R20.30", "a count is compared with its declared limit on the right side of the boundary: where a loop of the NEXUS reader refuses (raises) when a counter it increments itself has reached a dimension the document declared (`self._file_specified_ntax` / `_nchar`), the test matches the place of the increment - tested BEFORE the item is accepted and counted, the refusal is `count >= limit`; a bare `>` lets exactly one item too many through, and a TAXLABELS statement with NTAX+1 labels (then a MATRIX with NTAX+1 rows) is accepted against its own DIMENSIONS")
+        n30 = 0
+        for f in index.functions_in_module("dendropy.dataio.nexusreader"):
+            g30 = None
+            for loop in [l for l in ast.walk(f.node) if isinstance(l, (ast.While, ast.For))]:
+                incs = {}
+                for st in ast.walk(loop):
+                    if isinstance(st, ast.AugAssign) and isinstance(st.op, ast.Add) and isinstance(st.target, ast.Name) and isinstance(st.value, ast.Constant) and st.value.value == 1:
+                        incs.setdefault(st.target.id, []).append(st)
+                if not incs:
+                    continue
+                for cmp_ in [x for x in ast.walk(loop) if isinstance(x, ast.Compare) and len(x.ops) == 1 and isinstance(x.ops[0], (ast.Gt, ast.GtE, ast.Lt, ast.LtE))]:
+                    l_, r_ = cmp_.left, cmp_.comparators[0]
+                    for cnt, lim, flip in ((l_, r_, False), (r_, l_, True)):
+                        if isinstance(cnt, ast.Name) and cnt.id in incs and isinstance(lim, ast.Attribute) and lim.attr.startswith("_file_specified_"):
+                            g30 = g30 or cfg_of(f)
+                            tn = [nd for nd in g30.nodes if nd.kind == "test" and nd.ast is not None and any(y is cmp_ for y in ast.walk(nd.ast))]
+                            if not tn or (raises_in_branch(g30, tn[0], "t") is None and raises_in_branch(g30, tn[0], "f") is None):
+                                continue
+                            n30 += 1
+                            before = all(cmp_.lineno < i_.lineno for i_ in incs[cnt.id])
+                            after = all(cmp_.lineno > i_.lineno for i_ in incs[cnt.id])
+                            op = type(cmp_.ops[0])
+                            strict = (op is ast.Gt and not flip) or (op is ast.Lt and flip)        # count > limit
+                            inclusive = (op is ast.GtE and not flip) or (op is ast.LtE and flip)   # count >= limit
+                            ok30 = (before and inclusive) or (after and strict) or not (before or after)
+                            rep.check(ok30, "R20.30", f.qualname, "limit test on the wrong side of the boundary", fn_where(f, cmp_), "%s: `%s` matches the place of the increment" % (f.name, norm(cmp_)[:50]),
+                                      "%s refuses on `%s` but increments `%s` %s that test: %s - `DIMENSIONS NTAX=2; TAXLABELS a b c;` is accepted, and so is the three-row matrix that follows, against the dimensions the document declares" % (f.qualname, norm(cmp_)[:60], cnt.id, "AFTER" if before else "BEFORE", "one item more than the declared number passes before the refusal" if before else "the last declared item is refused"))
+        rep.floor("R20.30", "raising comparisons of a loop counter with a declared dimension", 1, n30)
+
 
 def _branch_calls_raiser(cfg, n):
     for lab, t in n.succ:
